@@ -34,7 +34,7 @@ func propC09(cx *sim.Ctx) {
 	judge := func(o *outcome) {
 		cx.Exec()
 		cx.Steps(o.Calls)
-		attrs := map[string]any{"front": o.Name, "family": c.Family}
+		attrs := map[string]any{"front": o.Name, "family": c.Family, "first_byte_ef": len(in) > 0 && in[0] == 0xEF}
 		switch o.class() {
 		case "hang", "panic":
 			cx.Fail(fmt.Sprintf("C09/%s/%s", o.Name, o.class()), o.String(), attrs)
